@@ -179,6 +179,8 @@ def tensor_st(draw, min_vars=1, max_vars=4, allow_zero_dist=True, eps=True, neg=
     e = draw(eps_st()) if eps else None
     e_eff = e if e else EPS_DEFAULT
     palette = ["big", "big", "big", "zero", "sub"] + (["neg"] if neg else [])
+    if e is not None and e < 1e-9:
+        palette += ["mid", "mid"]  # kept by the custom threshold but below the default one used by derived distributions
     mode = draw(st.sampled_from(["mixed", "mixed", "mixed", "dense", "zero_dist"] if allow_zero_dist else ["mixed", "mixed", "dense"]))
     if mode == "dense":
         cats = ["big"] * n
@@ -196,6 +198,9 @@ def tensor_st(draw, min_vars=1, max_vars=4, allow_zero_dist=True, eps=True, neg=
             ps[i] = r[i] * e_eff
         elif c == "neg":
             ps[i] = -r[i] * 1e-9
+        elif c == "mid":
+            lo, hi = 2.0 * e_eff, 5e-9
+            ps[i] = lo * (hi / lo) ** ((r[i] - 0.01) / 0.49)
     big = [i for i, c in enumerate(cats) if c == "big"]
     if big:
         rest = 1.0 - float(np.sum(ps))
@@ -227,6 +232,8 @@ def _tensor_labels(case, ctx):
         ctx.label("has-zero")
     if np.any((ps > 0) & (ps < e_eff)):
         ctx.label("has-subthreshold")
+    if np.any((ps >= e_eff) & (ps < EPS_DEFAULT)):
+        ctx.label("has-entry-between-custom-and-default-threshold")
     if np.any(ps < 0):
         ctx.label("has-tiny-negative")
     return e_eff
@@ -295,9 +302,9 @@ def check_multinomial(case, ctx):
     ctx.raises((ValueError,), lambda: d[tuple([0] * (len(shape) + 1))], "getitem_tuple_length_mismatch")
     # shape=None -> one variable
     if case.get("shape_none"):
-        d1 = MultinomialDistribution(np.array(case["ps"], dtype=np.float64))
+        d1 = MultinomialDistribution(np.array(case["ps"], dtype=np.float64), eps_zero=case.get("eps_zero"))
         ctx.equal(tuple(int(s) for s in d1.shape) if isinstance(d1.shape, tuple) else d1.shape, (n,), "ctor:default_shape")
-        ctx.close(np.asarray(d1.ps, dtype=float), model_ctor(ps_in, None)[0], 4e-16, "ctor:default_shape_ps")
+        ctx.close(np.asarray(d1.ps, dtype=float), exp, 4e-16, "ctor:default_shape_ps")
 
     # ProbDist (plain container): accessors agree with the row-major reshape of what was stored
     pd = ProbDist(ps_in.copy(), shape)
@@ -354,7 +361,7 @@ def validate_case(draw, tier):
     eps_kind = draw(st.sampled_from(["none", "value"]))
     eps = None if eps_kind == "none" else draw(gen.log_uniform(1e-12, 1e-3))
     kind = draw(st.sampled_from(["none", "neg", "sum", "neg", "sum"]))
-    band = draw(st.sampled_from(["below", "above", "far"]))
+    band = draw(st.sampled_from(["below", "above", "below", "above", "far"]))
     ratio = draw(gen.log_uniform(1e-3, 0.09) if band == "below" else (gen.log_uniform(11.0, 1e3) if band == "above" else gen.log_uniform(1e3, 1e6)))
     return {
         "w": w, "eps": eps, "kind": kind, "ratio": ratio, "pos": draw(st.integers(0, 7)),
@@ -482,11 +489,14 @@ def check_marginal(case, ctx):
     threshold_active = False
     for size in range(1, nvar + 1):
         for subset in itertools.combinations(range(nvar), size):
-            for remain in {tuple(subset), tuple(_ordered(subset, order))}:
-                remain = list(remain)
+            variants = [list(subset)]
+            if _ordered(subset, order) != list(subset):
+                variants.append(_ordered(subset, order))
+            for remain in variants:
                 raw_marg = _expected_marginal(pt, sorted(remain))
                 if near_threshold(raw_marg, EPS_DEFAULT):
                     ctx.label("margin-band-subset")
+                    threshold_active = True
                     continue
                 exp_flat, exp_zero = model_ctor(raw_marg.reshape(-1), None)
                 if np.any((raw_marg > 0) & (raw_marg < EPS_DEFAULT)):
@@ -619,7 +629,7 @@ def check_conditional(case, ctx):
                 # joint = marginal x conditional, entrywise, through the accessors
                 if marg_ok and tuple(int(s) for s in r.shape) == rest_shape:
                     m_val = marg[tuple(assign[v] for v in sorted(subset))]
-                    jt = tol if clean else tol + 4.0 * EPS_DEFAULT * max(1, exp_flat.size)
+                    jt = tol if clean else tol + 4.0 * EPS_DEFAULT * parent.size
                     for multi in all_multi(rest_shape):
                         full = [0] * nvar
                         for v, val in assign.items():
@@ -672,12 +682,21 @@ def instrument_st(draw, shape, m, allow_projective=True):
 def ensemble_case(draw, tier):
     shape = draw(st.sampled_from(["1q", "qutrit", "qutrit", "2q"] if tier == "quick" else ["1q", "qutrit", "2q", "2q"]))
     d = gen.dim_of(shape)
-    state = draw(gen.state_case((shape,)))
-    m1 = draw(st.integers(2, 4))
+    zero_class = draw(st.integers(0, 4)) == 0  # pure eigenstate of a projective first measurement: exact zero outcomes
+    if zero_class:
+        state = {"type": "state", "shape": shape, "kind": "pure", "raw_u": draw(gen.raw(2 * d * d)),
+                 "raw_p": draw(gen.raw(d)), "zero_mask": [False] + [True] * (d - 1)}
+        m1 = draw(st.integers(2, min(4, d)))
+        i1 = {"type": "mprocess", "shape": shape, "m": m1, "kind": "projective", "own_basis": False,
+              "out_shape": draw(st.sampled_from(FACTORISATIONS[m1]))}
+    else:
+        state = draw(gen.state_case((shape,)))
+        m1 = draw(st.integers(2, 4))
+        i1 = draw(instrument_st(shape, m1))
     m2 = draw(st.sampled_from([m for m in (2, 3, 4) if m != m1]))
     c = {
         "shape": shape, "state": state,
-        "m1": draw(instrument_st(shape, m1)), "m2": draw(instrument_st(shape, m2)),
+        "m1": i1, "m2": draw(instrument_st(shape, m2)),
         "povm": draw(st.one_of(st.none(), gen.povm_case((shape,), (2, 3)))),
         "flat_call": draw(st.booleans()),
     }
@@ -827,7 +846,7 @@ def check_ensembles(case, ctx):
             if tuple(int(s) for s in second.shape) == sh2:
                 ctx.close(np.asarray(second.ps, dtype=float), joint.sum(axis=0), jt * m1 + alg, "ens2:marginal_is_second_measurement")
         for i in range(m1):
-            if p1[i] >= 1e-4 and np.all((joint[i] >= 1e-6 * p1[i] * 10) | (joint[i] < 1e-14)) and np.all(joint >= -1e-14):
+            if p1[i] >= 1e-4 and np.all((joint[i] >= 1e-5 * p1[i]) | (np.abs(joint[i]) < 1e-14)):
                 cond = pd2.conditionalize(list(range(len(sh1))), [int(x) for x in multis1[i]])
                 if _valid_dist_obj(cond, ctx, "ens2_conditional"):
                     ctx.equal(tuple(int(s) for s in cond.shape), sh2, "ens2:conditional_shape")
@@ -868,35 +887,35 @@ FACETS = {
     "multinomial": {
         "strategy": multinomial_case,
         "check": check_multinomial,
-        "budget": {"quick": {"examples": 800, "shards": 4}, "thorough": {"examples": 16000, "shards": 16}},
+        "budget": {"quick": {"examples": 3200, "shards": 8}, "thorough": {"examples": 32000, "shards": 16}},
         "nontrivial": "non-square shape with >= 2 variables of >= 2 values, or at least one entry below the zero threshold",
         "min_nontrivial": 100,
     },
     "validate": {
         "strategy": validate_case,
         "check": check_validate,
-        "budget": {"quick": {"examples": 400, "shards": 2}, "thorough": {"examples": 8000, "shards": 8}},
+        "budget": {"quick": {"examples": 1600, "shards": 4}, "thorough": {"examples": 16000, "shards": 8}},
         "nontrivial": "negative-entry or sum defect within two decades of eps (outside the margin band)",
         "min_nontrivial": 40,
     },
     "marginal": {
         "strategy": marginal_case,
         "check": check_marginal,
-        "budget": {"quick": {"examples": 600, "shards": 4}, "thorough": {"examples": 12000, "shards": 16}},
+        "budget": {"quick": {"examples": 2400, "shards": 8}, "thorough": {"examples": 24000, "shards": 16}},
         "nontrivial": ">= 2 variables with >= 2 values and (non-square shape or entries below the zero threshold)",
         "min_nontrivial": 100,
     },
     "conditional": {
         "strategy": conditional_case,
         "check": check_conditional,
-        "budget": {"quick": {"examples": 600, "shards": 4}, "thorough": {"examples": 12000, "shards": 16}},
+        "budget": {"quick": {"examples": 2400, "shards": 8}, "thorough": {"examples": 24000, "shards": 16}},
         "nontrivial": ">= 2 variables with >= 2 values, a positive-probability event, and (non-square shape or threshold entries)",
         "min_nontrivial": 100,
     },
     "ensembles": {
         "strategy": ensemble_case,
         "check": check_ensembles,
-        "budget": {"quick": {"examples": 600, "shards": 4}, "thorough": {"examples": 12000, "shards": 16}},
+        "budget": {"quick": {"examples": 2400, "shards": 8}, "thorough": {"examples": 24000, "shards": 16}},
         "nontrivial": "two measurement processes with different outcome counts applied in sequence",
         "min_nontrivial": 100,
     },
